@@ -17,7 +17,9 @@ CONST_OPS = [('FULLY_CONNECTED', 'bias'), ('FULLY_CONNECTED', 'nobias'),
              ('MUL', 'tc'), ('CONCATENATION', 'tc'),
              ('FULLY_CONNECTED', 'nokeepdims'), ('CONV_2D', '2x2valid_relu6'),
              ('DEPTHWISE_CONV_2D', 'm2'), ('BATCH_MATMUL', 'const_adjx'),
-             ('ADD', 'ts'), ('MUL', 'ts')]
+             ('ADD', 'ts'), ('MUL', 'ts'), ('ADD', 's0'), ('SUB', 's0'),
+             ('MUL', 's0'), ('ADD', 'bc'), ('SUB', 'bc'),
+             ('BATCH_MATMUL', 'const_b2')]
 XSHAPES = ['S4', 'S43', 'R2', 'O13', 'O35']
 ALLMODES = [m for m in md.ALL_MODES if m != 'NQ']
 QUICK_KINDS = ['rand', 'ramp', 'neg', 'const', 'zero', 'outlier', 'tie', 'big']
